@@ -11,6 +11,7 @@ import hashlib
 import itertools
 import json
 import os
+import re
 import shutil
 import subprocess
 
@@ -255,6 +256,9 @@ def spec_answers(sc, impl):
     return out
 
 
+STORED_RE = re.compile(r"^stored ([0-9a-f]{2})/\1[0-9a-f]{62}$")
+
+
 def run_key_ties(chk, tier):
     scs = gen_scenarios(tier, chk.rng)
     ops, owner = [], []
@@ -298,7 +302,10 @@ def run_key_ties(chk, tier):
                     collide[ops[pos + j] + "#%d" % (pos + j)] = any(
                         sk == k and (ci, q) != (m[1].ident(), m[3]) for (sk, ci, q) in stored_keys)
             if sp[j] is None:
-                sp[j] = model[pos + j]
+                # the property does not prescribe the file name (that is the model tie): any single new file
+                # "<2 hex>/<64 hex>" whose directory is the name's prefix is a proper store
+                a = impl[pos + j]
+                sp[j] = a if STORED_RE.match(a) else model[pos + j]
         spec += sp
         pos += n
     # tag ops with their index so the signature function can find the classification
